@@ -66,12 +66,30 @@ def eval_ranks(payload):
     return out
 
 
+_DISTILLED = None
+
+
+def distilled(uname):
+    """Coverage-distilled stratum for the scan / fix pipeline (tools/distill.py scan): ranks of the plan universes that
+    each added a line or branch direction of pymarkdown/ (rules, plugin manager, fix machinery) not reached before."""
+    global _DISTILLED
+    if _DISTILLED is None:
+        import json
+
+        from . import VERIF_DIR
+
+        p = os.path.join(VERIF_DIR, "corpus", "distilled_scan.json")
+        _DISTILLED = json.load(open(p)) if os.path.exists(p) else {}
+    return _DISTILLED.get(uname, [])
+
+
 def plan_ranks(uname, tier, seed, quick_n, first=0):
     u = get_universe(uname)
     if tier == "thorough" or quick_n >= u.size:
         return range(u.size), True
     rnd = random.Random(f"{seed}:{uname}")
     ranks = set(range(min(first, u.size)))
+    ranks.update(r for r in distilled(uname) if r < u.size)
     ranks.update(rnd.sample(range(u.size), min(quick_n, u.size)))
     return sorted(ranks), len(ranks) == u.size
 
